@@ -558,6 +558,9 @@ impl Ctx {
                         let strategy = mk_strategy();
                         let acc = RefCell::new(Acc::default());
                         let failing = RefCell::new(false);
+                        // the smallest failing value seen so far (kept in case the final
+                        // shrunk value sits on a boundary that does not fail again)
+                        let last_fail: RefCell<Option<(Json, String, String)>> = RefCell::new(None);
                         let res = runner.run(&strategy, |v| {
                             let shrinking = *failing.borrow();
                             if !shrinking && stop.load(Ordering::Relaxed) {
@@ -568,9 +571,12 @@ impl Ctx {
                                 self.account(&mut acc.borrow_mut(), &obs, &v);
                             }
                             match self.first_unknown(&obs) {
-                                Some((sig, _)) => {
+                                Some((sig, detail)) => {
                                     *failing.borrow_mut() = true;
                                     stop.store(true, Ordering::Relaxed);
+                                    if let Ok(j) = serde_json::to_value(&v) {
+                                        *last_fail.borrow_mut() = Some((j, sig.clone(), detail.clone()));
+                                    }
                                     Err(TestCaseError::fail(sig.clone()))
                                 }
                                 None => Ok(()),
@@ -585,6 +591,10 @@ impl Ctx {
                                 match self.first_unknown(&obs) {
                                     Some((sig, detail)) => {
                                         self.record_violation(name, sig, detail, &v)
+                                    }
+                                    None if last_fail.borrow().is_some() => {
+                                        let (j, sig, detail) = last_fail.borrow_mut().take().unwrap();
+                                        self.record_violation(name, &sig, &detail, &j)
                                     }
                                     None => self.infra(format!(
                                         "{name}: shrunk value no longer fails (flaky oracle?)"
